@@ -24,7 +24,8 @@ RULE = ("gain vectors of length 1..16 drawn from classes {log-uniform over 12 "
         "(1e-14..1e-9 and 1e9..1e14); a fifth of the budgets sit exactly on a "
         "switch-off boundary; the permuted call is under the contract too.  "
         "Class 'wide': one link of order 1 next to links 8-20 decades weaker at "
-        "a noise level that still makes them worth filling. ")
+        "a noise level that still makes them worth filling. "
+        "The in-situ cases sweep power and noise on ONE BlockDiagonalizer object (1-3 rounds). ")
 ASSUMPTIONS = ["tolerances are backward-error bounds 64 n eps (level + inverse "
                "gain of the active channels)"]
 EPS = np.finfo(float).eps
@@ -240,26 +241,38 @@ def case_direct(ctx, rng, idx):
 
 
 def case_insitu(ctx, rng, idx):
-    """doWF as called by the block-diagonalisation code."""
+    """doWF as called by the block-diagonalisation code, over a power / noise
+    sweep on ONE BlockDiagonalizer object (the way a simulator loops)."""
     K = int(rng.integers(2, 5))
     nant = int(rng.integers(1, 4))
     Pu = 10.0 ** rng.uniform(-2, 2)
     noise = 10.0 ** rng.uniform(-4, 0)
-    H = (rng.standard_normal((K * nant, K * nant)) +
-         1j * rng.standard_normal((K * nant, K * nant))) / np.sqrt(2)
     bd = BD.BlockDiagonalizer(K, Pu, noise)
-    STATE["rng"], STATE["tag"] = rng, "block_diagonalize"
-    STATE["calls"] = []
     monitors.ACTIVE[0] = ctx
     try:
-        okc, _ = ctx.call("matches-reference", bd.block_diagonalize, H,
-                          detail={"K": K, "nant": nant, "Pu": Pu, "noise": noise})
-        calls = STATE["calls"]
-        if okc:
+        for rnd in range(int(rng.integers(1, 4))):
+            if rnd:
+                # the object is re-configured through its public attributes
+                what = int(rng.integers(0, 3))
+                if what in (0, 2):
+                    Pu = 10.0 ** rng.uniform(-2, 2)
+                    bd.iPu = Pu
+                if what in (1, 2):
+                    noise = 10.0 ** rng.uniform(-4, 0)
+                    bd.noise_var = noise
+            H = (rng.standard_normal((K * nant, K * nant)) +
+                 1j * rng.standard_normal((K * nant, K * nant))) / np.sqrt(2)
+            STATE["rng"], STATE["tag"] = rng, "block_diagonalize"
+            STATE["calls"] = []
+            d = {"K": K, "nant": nant, "Pu": Pu, "noise": noise, "round": rnd}
+            okc, _ = ctx.call("matches-reference", bd.block_diagonalize, H, detail=d)
+            calls = STATE["calls"]
+            if not okc:
+                break
             # the water-filling problem of this channel, derived independently:
             # gains = squared singular values of each user's channel restricted to
             # the null space of the other users (basis independent), noise and
-            # total budget as configured
+            # total budget as configured NOW
             want = []
             for k in range(K):
                 others = np.vstack([H[j * nant:(j + 1) * nant] for j in range(K) if j != k])
@@ -267,7 +280,6 @@ def case_insitu(ctx, rng, idx):
                 Nk = Vh.conj().T[:, others.shape[0]:]
                 want.extend(np.linalg.svd(H[k * nant:(k + 1) * nant] @ Nk, compute_uv=False) ** 2)
             want = np.sort(np.array(want))
-            d = {"K": K, "nant": nant, "Pu": Pu, "noise": noise}
             ctx.ev("matches-reference", len(calls) == 1, cls="insitu:one-water-filling-call",
                    detail={**d, "calls": len(calls)})
             if len(calls) == 1:
@@ -278,10 +290,10 @@ def case_insitu(ctx, rng, idx):
                        bool(np.all(np.abs(got - want) <= 1e-9 * scale)) and
                        abs(c["N0"] - noise) <= 1e-12 * noise and abs(c["Es"] - 1.0) == 0.0 and
                        abs(c["Pt"] - K * Pu) <= 1e-12 * K * Pu,
-                       cls="insitu:problem-handed-to-doWF",
+                       cls="insitu:problem-handed-to-doWF" + (":after-reconfiguration" if rnd else ""),
                        detail={**d, "gains_passed": got, "gains_of_the_channel": want,
                                "noise_passed": c["N0"], "budget_passed": c["Pt"]})
-        ctx.sig("insitu", K, nant, int(np.floor(np.log10(Pu))))
+            ctx.sig("insitu", K, nant, int(np.floor(np.log10(Pu))), rnd)
     finally:
         monitors.ACTIVE[0] = None
         STATE["tag"] = ""
